@@ -12,6 +12,7 @@ Cases are JSON-serialisable dicts so that a witness can be replayed verbatim.
 from __future__ import annotations
 
 import contextlib
+import gc
 import hashlib
 import json
 import os
@@ -123,11 +124,25 @@ class Shard:
     def case(self, key: Any = None, nontrivial: bool = True, n: int = 1) -> None:
         """One execution judged by the oracle.  `key` identifies the *distinct* case."""
         self.evaluations += n
+        self._maybe_gc()
         if nontrivial and key is not None:
             if len(self.hashes) < MAX_HASHES_PER_SHARD:
                 self.hashes.add(digest(key, 12))
             else:
                 self.nontrivial_overflow += 1
+
+    def _maybe_gc(self) -> None:
+        """The worker runs with the cyclic GC disabled and collects here, between cases, from
+        harness code: cachebox 6.2.0 (pinned dependency of StreamFlow) self-deadlocks when a full
+        collection starts while its Rust core holds the cache mutex (inside `setdefault_with`
+        called by the async cached getters of SqliteDatabase) - the process then sleeps in a futex
+        forever.  Collecting only at case boundaries keeps the workers alive; the hazard itself is
+        recorded in DESIGN.md (third-party, outside the 34 properties)."""
+        now = time.time()
+        if now - getattr(self, "_last_gc", 0.0) > 2.0:
+            self._last_gc = now
+            if not gc.isenabled():
+                gc.collect()
 
     def sample(self, obj: Any, limit: int = 3) -> None:
         if len(self.samples) < limit:
@@ -147,7 +162,11 @@ class Shard:
         k = mechanism or "unclassified"
         self.violation_counts[k] = self.violation_counts.get(k, 0) + 1
         per = sum(1 for v in self.violations if (v["mechanism"] or "unclassified") == k)
-        if per < 6 and len(self.violations) < MAX_WITNESSES_PER_SHARD:
+        # labelled (possibly known) mechanisms may never crowd out an unclassified witness
+        labelled = sum(1 for v in self.violations if v["mechanism"])
+        if (mechanism is None and per < 8) or (
+            mechanism is not None and per < 3 and labelled < MAX_WITNESSES_PER_SHARD
+        ):
             self.violations.append(
                 {
                     "mechanism": mechanism,
